@@ -5,6 +5,8 @@ import RtcVerif.Proofs.C17Vector
 import RtcVerif.Model.C17SinglePass
 import RtcVerif.Proofs.C17SinglePass
 import RtcVerif.Model.C17Code
+import RtcVerif.Model.C17Caching
+import RtcVerif.Proofs.C17Caching
 import Mathlib.Algebra.Order.Field.Rat
 import Mathlib.Algebra.Order.AbsoluteValue.Basic
 import Mathlib.Tactic.Linarith
@@ -15,8 +17,10 @@ import Mathlib.Tactic.Ring
 Formulation-level theorems: the auxiliary-variable form of `|f/n|`, the piecewise-linear majorant
 of `eps^order` (for ANY knot vector `0 = x_0 < … < x_K = 1`, any integer order), and the
 vector-goal = scalar-goals equality of the objective model (see `Props/C17Vector` part below).
-The runtime equivalences (caching QP front-end, map modes, re-solve) have no logic model beyond
-"same rows" and are decided by the differential runs of the harness.
+The caching QP front-end `CachingQPSol` has a logic model (`Model/C17Caching.lean`, last section below):
+history independence of what reaches the back-end, the reported objective, the shifted row bounds.
+The other runtime equivalences (map modes, expand, re-solve) have no logic model beyond "same rows"
+and are decided by the differential runs of the harness.
 -/
 namespace RtcVerif.C17
 
@@ -360,6 +364,30 @@ theorem objBnd_contains (fix : Bool) (v cr : ℚ) (hcr : 0 ≤ cr) :
     C03.inBnd (objBnd fix v cr).1 (objBnd fix v cr).2 v = true := by
   cases fix <;> simp [objBnd, C03.inBnd, EVal.le, hcr]
 
+/-- **per-priority options**: the retained objective row of every priority gets the same bounds in the
+    single-pass problems as in keep-soft multi-pass, whatever `goal_programming_options()` returns at each
+    priority (both read the two options while the row's own priority is active; the reading points are
+    translated from the source: `Gen/C17OptRead.lean`) -/
+theorem objRow_options_agree (opts : ℕ → Bool × ℚ) (vals : ℕ → ℚ) (j : ℕ) :
+    rowBnd singlePassOptRead opts vals j = rowBnd keepSoftOptRead opts vals j
+      ∧ rowBnd singlePassOptRead opts vals j = objBnd (opts j).1 (vals j) (opts j).2 := ⟨rfl, rfl⟩
+
+/-- reading the options when the next priority is transcribed is a different formulation as soon as the
+    options differ between consecutive priorities -/
+theorem objRow_next_priority_differs (opts : ℕ → Bool × ℚ) (vals : ℕ → ℚ) (j : ℕ)
+    (hfix : (opts j).1 = false) (hfix' : (opts (j + 1)).1 = false) (hcr : (opts j).2 ≠ (opts (j + 1)).2) :
+    rowBnd .nextPriority opts vals j ≠ rowBnd .ownPriority opts vals j := by
+  simp only [rowBnd, optsForRow, objBnd, hfix, hfix', Bool.false_eq_true, ↓reduceIte, ne_eq, Prod.mk.injEq,
+    true_and, EVal.fin.injEq]
+  intro h
+  exact hcr (by linarith)
+
+example :
+    let opts : ℕ → Bool × ℚ := fun i => if i = 0 then (false, 1/20) else (false, 1/50)
+    rowBnd singlePassOptRead opts (fun _ => 3) 0 = (.ninf, .fin (61/20))
+      ∧ rowBnd .nextPriority opts (fun _ => 3) 0 = (.ninf, .fin (151/50)) := by
+  decide +kernel
+
 /-- **re-solve = fresh instance** on the reset attributes: after the reset at the start of `optimize()`
     every reset attribute has its fresh value whatever the previous state was -/
 theorem optimize_reset_independent (reset prev prev' : List (String × Fresh)) (k : String)
@@ -375,5 +403,173 @@ example : lookup (applyReset gpmReset [("__constraint_store", .emptyList), ("oth
       = some .perMember
     ∧ lookup (applyReset gpmReset [("__constraint_store", .emptyList), ("other", .zero)]) "other" = some .zero := by
   decide
+
+/-! ## `CachingQPSol`: the QP handed to the back-end does not depend on the history
+
+Model: `Model/C17Caching.lean` (`construct` = `Solver.__init__` incl. the `_tlcache` logic, `call` =
+`Solver.__call__` up to the back-end call, `report` = the reconstructed objective); tied to the source by
+`Gen/C17Caching.lean`. -/
+
+/-- one construction with the cache left by an earlier NLP whose rows the new NLP starts with
+    (rows appended or unchanged, same variables): the solver object and the cache afterwards are those of a
+    fresh extraction of the new NLP -/
+theorem caching_construct_eq_fresh (p q : NLP) (h : Extends p q) :
+    construct (some (cacheOf p)) q = construct none q := by
+  rw [construct_cached p q h, construct_none]
+
+/-- **history independence** (induction over the life of one `CachingQPSol` object): for every sequence of
+    constructions whose NLPs each extend the previous one, each followed by any number of calls with
+    arbitrary `x0, lbx, ubx, lbg, ubg`, every solver object, every dict handed to the conic back-end
+    (`h, g, a, x0, lbx, ubx, lba, uba`), every `_f0` and every raised dimension error is the one of a
+    solver built without cache and never called before -/
+theorem caching_eq_fresh (evs : List (NLP × List CallIn)) (hc : chainOK (evs.map (·.1))) :
+    session none evs = sessionFresh evs := by
+  cases evs with
+  | nil => rfl
+  | cons ev rest =>
+    obtain ⟨p, is⟩ := ev
+    rw [session, construct_none]
+    simp only [sessionFresh, List.map_cons]
+    rw [callsOn_eq_fresh p is (extract p).sin rfl rfl rfl]
+    congr 1
+    exact session_eq_fresh_aux p rest hc
+
+/-- within one solver object: a successful call overwrites everything an earlier call (successful or
+    not) left in `_solver_in`; what reaches the back-end is `freshIn` of the CURRENT arguments -/
+theorem caching_call_overwrites (p : NLP) (i : CallIn) (d r : SolverIn)
+    (hh : d.h = some (extractH p)) (hg : d.g = some (extractC p)) (ha : d.a = some (extractA p))
+    (hr : call (extract p) d i = .ok r) : r = freshIn p i :=
+  call_eq_freshIn p i d hh hg ha r hr
+
+/-- a call raises exactly when a bound vector does not have one entry per (cached + new) row -/
+theorem caching_call_ok_iff (s : SolverObj) (d : SolverIn) (i : CallIn) :
+    (call s d i).isOk = true ↔ i.lbg.length = s.b.length ∧ i.ubg.length = s.b.length := by
+  unfold call
+  cases hb : (i.lbg.length == s.b.length && i.ubg.length == s.b.length)
+  · simp only [Bool.not_false, ↓reduceIte]
+    simp only [Bool.and_eq_false_iff, beq_eq_false_iff_ne] at hb
+    constructor
+    · intro hx; cases hx
+    · rintro ⟨h1, h2⟩; rcases hb with hb | hb <;> contradiction
+  · simp only [Bool.not_true, Bool.false_eq_true, ↓reduceIte]
+    simp only [Bool.and_eq_true, beq_iff_eq] at hb
+    exact ⟨fun _ => hb, fun _ => rfl⟩
+
+/-- **reported objective** `cost + f(0)` with the conic cost `1/2 x'Hx + g'x` is the NLP objective, for
+    every `x` and every (not necessarily symmetric) coefficient matrix `Q`: `H = Q + Q'` in full (F42), the
+    constant `f(0)` added back (F48) -/
+theorem caching_report_eq_objective (p : NLP) (x : ℕ → ℚ) :
+    report (extract p) (conicCost p.n (extractH p) (extractC p) x) = p.f.eval p.n x := by
+  unfold report conicCost QuadF.eval
+  rw [quadTo_extractH, dotTo_extractC]
+  simp only [extract]
+  ring
+
+/-- **constraint bounds**: `lbg - g(0) ≤ A x ≤ ubg - g(0)` iff `lbg ≤ g(x) ≤ ubg`, all rows, infinite
+    bounds included -/
+theorem caching_bounds_iff (p : NLP) (lbg ubg : List EVal) (x : ℕ → ℚ) :
+    conicRowsFeasible p.n (extractA p) (subVec lbg (extractB p)) (subVec ubg (extractB p)) x
+      = nlpRowsFeasible p.n p.g lbg ubg x := by
+  unfold conicRowsFeasible nlpRowsFeasible extractA extractB
+  exact inRows_shift p.n p.g lbg ubg x
+
+/-- one row, as order statements on extended values -/
+theorem caching_row_bounds_iff (lo hi : EVal) (b v : ℚ) :
+    (shift lo b ≤ .fin v ∧ EVal.fin v ≤ shift hi b) ↔ (lo ≤ .fin (v + b) ∧ EVal.fin (v + b) ≤ hi) := by
+  simp only [EVal.le_def, shift_le_fin, fin_le_shift]
+
+/-- **equal optima**: a point that is optimal for the QP the back-end receives (after any admissible
+    history) is optimal for the NLP with the caller's bounds, and the reported value is the NLP objective
+    there (variable bounds `lbx, ubx` are passed through unchanged: `freshIn`) -/
+theorem caching_optimum_eq (p : NLP) (lbg ubg : List EVal) (box : (ℕ → ℚ) → Prop) (xs : ℕ → ℚ)
+    (hfeas : conicRowsFeasible p.n (extractA p) (subVec lbg (extractB p)) (subVec ubg (extractB p)) xs = true)
+    (hopt : ∀ y, box y →
+      conicRowsFeasible p.n (extractA p) (subVec lbg (extractB p)) (subVec ubg (extractB p)) y = true →
+      conicCost p.n (extractH p) (extractC p) xs ≤ conicCost p.n (extractH p) (extractC p) y) :
+    nlpRowsFeasible p.n p.g lbg ubg xs = true
+      ∧ (∀ y, box y → nlpRowsFeasible p.n p.g lbg ubg y = true → p.f.eval p.n xs ≤ p.f.eval p.n y)
+      ∧ report (extract p) (conicCost p.n (extractH p) (extractC p) xs) = p.f.eval p.n xs := by
+  refine ⟨by rw [← caching_bounds_iff]; exact hfeas, ?_, caching_report_eq_objective p xs⟩
+  intro y hy hyf
+  rw [← caching_bounds_iff] at hyf
+  have := hopt y hy hyf
+  rw [← caching_report_eq_objective p xs, ← caching_report_eq_objective p y]
+  unfold report
+  linarith
+
+/-- non-vacuity of `caching_optimum_eq`: `min x² + 3` over `x + 1 ≥ 2`; `x = 1` is optimal for the QP the
+    back-end receives (`lba = 2 - 1`), hence for the NLP, and the reported value is `f(1) = 4` -/
+example :
+    let p : NLP := { n := 1, f := { Q := [[1]], c := [0], k := 3 }, g := [{ a := [1], b := 1 }] }
+    let xs : ℕ → ℚ := fun _ => 1
+    nlpRowsFeasible p.n p.g [.fin 2] [.pinf] xs = true
+      ∧ (∀ y, True → nlpRowsFeasible p.n p.g [.fin 2] [.pinf] y = true → p.f.eval p.n xs ≤ p.f.eval p.n y)
+      ∧ report (extract p) (conicCost p.n (extractH p) (extractC p) xs) = p.f.eval p.n xs := by
+  intro p xs
+  refine caching_optimum_eq p [.fin 2] [.pinf] (fun _ => True) xs (by decide +kernel) ?_
+  intro y _ hy
+  have hA : (extractA p).rows = [[1]] := by decide +kernel
+  have hB : extractB p = [1] := by decide +kernel
+  have hH : (extractH p).rows = [[2]] := by decide +kernel
+  have hC : extractC p = [0] := by decide +kernel
+  have hn : p.n = 1 := rfl
+  have hx : xs 0 = 1 := rfl
+  simp only [conicRowsFeasible, hA, hB, hn, subVec, shift, List.map, List.zipWith, inRows, dotTo, sumTo, EVal.le,
+    List.getD_cons_zero, Bool.and_true, decide_eq_true_eq, zero_add, one_mul] at hy
+  simp only [conicCost, hH, hC, hn, quadTo, dotTo, sumTo, entry, List.getD_cons_zero, zero_add, zero_mul, add_zero, hx]
+  have h1 : (1 : ℚ) ≤ y 0 := by linarith [hy]
+  nlinarith [h1]
+
+/-- **when the cache is invalidated**: only a different number of variables is noticed (an exception,
+    the cache stays); nothing else is ever dropped during the life of the object -/
+theorem caching_dimension_guard (p q : NLP) (h : q.n ≠ p.n) :
+    ∃ e, construct (some (cacheOf p)) q = .error e := by
+  refine ⟨"Number of variables does not match cached constraint matrix dimensions", ?_⟩
+  unfold construct
+  have : (q.n == (cacheOf p).A.ncol) = false := by
+    simp [cacheOf, extractA, jacobian, h]
+  simp only [this, Bool.not_false, ↓reduceIte]
+
+/-- non-vacuity of `caching_dimension_guard`: a 2-variable NLP after a 1-variable one raises; the same NLP
+    on an empty cache is accepted -/
+example :
+    let p : NLP := { n := 1, f := { Q := [[1]], c := [0], k := 0 }, g := [{ a := [1], b := 0 }] }
+    let q : NLP := { n := 2, f := { Q := [[1, 0], [0, 1]], c := [0, 0], k := 0 }, g := [{ a := [1, 1], b := 0 }] }
+    (construct (some (cacheOf p)) q).isOk = false ∧ (construct none q).isOk = true := by
+  decide +kernel
+
+/-- the prefix hypothesis of `caching_eq_fresh` is needed: with the same number of rows but a changed
+    row (here its constant part) the cached row is handed to the back-end -/
+theorem caching_stale_without_prefix :
+    ∃ p q : NLP, q.n = p.n ∧ q.g.length = p.g.length
+      ∧ construct (some (cacheOf p)) q ≠ construct none q := by
+  refine ⟨{ n := 1, f := { Q := [[1]], c := [0], k := 0 }, g := [{ a := [1], b := 0 }] },
+          { n := 1, f := { Q := [[1]], c := [0], k := 0 }, g := [{ a := [1], b := 5 }] }, rfl, rfl, ?_⟩
+  decide +kernel
+
+/-- non-vacuity: two variables, `f = x0² + 3 x0 x1 - x0 x1 + 2 x1² + x0 - 2 x1 + 5` (asymmetric `Q`), a row
+    with constant 3, then a second NLP with one more row; two calls on the first solver (the second with
+    other bounds), one on the second.  The chain hypothesis holds (so the whole session equals the fresh one);
+    the first call hands `lba = 1/2 - 3`, `uba = inf`; the reported value at `x = (1, -1)` is `f(1,-1) = 9`. -/
+example :
+    let f : QuadF := { Q := [[1, 3], [-1, 2]], c := [1, -2], k := 5 }
+    let p : NLP := { n := 2, f := f, g := [{ a := [1, 1], b := 3 }] }
+    let q : NLP := { n := 2, f := f, g := [{ a := [1, 1], b := 3 }, { a := [1, -1], b := 4 }] }
+    let i1 : CallIn := { x0 := [0, 0], lbx := [.fin (-10), .ninf], ubx := [.fin 10, .pinf], lbg := [.fin (1/2)], ubg := [.pinf] }
+    let i2 : CallIn := { i1 with lbg := [.ninf], ubg := [.fin 7] }
+    let i3 : CallIn := { i1 with lbg := [.fin 0, .fin 0], ubg := [.fin 9, .pinf] }
+    let evs := [(p, [i1, i2]), (q, [i3])]
+    let x : ℕ → ℚ := fun i => if i = 0 then 1 else -1
+    chainOK (evs.map (·.1))
+      ∧ (session none evs).map (fun t => t.calls.map fun r => r.toOption.map (·.lba))
+          = [[some (some [.fin (-5/2)]), some (some [.ninf])], [some (some [.fin (-3), .fin (-4)])]]
+      ∧ (extractH p).rows = [[2, 2], [2, 4]] ∧ extractC p = [1, -2]
+      ∧ p.f.eval 2 x = 9 ∧ report (extract p) (conicCost 2 (extractH p) (extractC p) x) = 9
+      ∧ nlpRowsFeasible 2 q.g i3.lbg i3.ubg x = true
+      ∧ conicRowsFeasible 2 (extractA q) (subVec i3.lbg (extractB q)) (subVec i3.ubg (extractB q)) x = true
+      ∧ (call (extract q) (extract q).sin i1).isOk = false := by
+  refine ⟨⟨⟨rfl, [_], rfl⟩, trivial⟩, ?_⟩
+  decide +kernel
+
 
 end RtcVerif.C17
